@@ -45,7 +45,7 @@ def cases(tier, seed):
     out = []
     for members, B, N, auto, closed, content in itertools.product(
             C.MEMBER_SUBSETS, (1, 2, 3), (2, 3), (False, True), ("right", "left"),
-            ("fp", "sparse", "zero", "zero-rr", "neg")):
+            ("fp", "sparse", "zero", "zero-rr", "neg", "cancel")):
         if tier != "thorough" and closed == "left" and content not in ("fp", "zero"):
             continue
         out.append(dict(part="hdf", members=list(members), B=B, N=N, auto=auto, closed=closed,
@@ -107,10 +107,14 @@ def run_hdf(case):
     content = case["content"]
     cf = c04.make_cf(case["B"], case["N"], case["auto"], case["members"],
                      content if content in ("fp", "sparse", "zero-rr") else "fp", "uneq", case["closed"])
-    if content in ("zero", "neg"):
+    if content in ("zero", "neg", "cancel"):
         kw = {}
         for m, nc in cf.to_dict().items():
             cnt = nc.counts.counts * (0.0 if content == "zero" else -0.37)
+            if content == "cancel":  # signed counts (negative weights) that sum to zero over the bins of one patch pair
+                cnt = nc.counts.counts.copy()
+                cnt[:, 0, -1] = ([3.0, -3.0, 0.0] if case["B"] == 3 else [2.5, -2.5] if case["B"] == 2 else [0.0])
+                cnt[:, -1, -1] = ([-1.0, -1.0, 2.0] if case["B"] == 3 else [-4.0, 4.0] if case["B"] == 2 else [7.0])
             kw[m] = C.make_norm(case["B"], case["N"], nc.auto, closed=case["closed"], counts=cnt,
                                 sw1=nc.sum_weights.sum_weights1, sw2=nc.sum_weights.sum_weights2)
         cf = yaw.CorrFunc(**kw)
